@@ -146,6 +146,262 @@ pub fn run_size<const N: usize>(w: &mut impl std::io::Write) -> usize {
     n
 }
 
+
+/// 70000 repetitions of cheap calls on ONE value (u16 counters, retry budgets), each with its obvious expected result
+pub fn long_repetitions(w: &mut impl std::io::Write) -> usize {
+    use crate::t1::kind_num;
+    use std::io::Write as _;
+    const REPS: usize = 70000;
+    let mut n = 0;
+    // C06: a reader that answers Interrupted REPS times, then delivers the rest of the frame
+    struct Flaky {
+        left: usize,
+        data: &'static [u8],
+        pos: usize,
+    }
+    impl Read for Flaky {
+        fn read(&mut self, dest: &mut [u8]) -> std::io::Result<usize> {
+            if self.left > 0 {
+                self.left -= 1;
+                return Err(std::io::Error::from(std::io::ErrorKind::Interrupted));
+            }
+            let k = dest.len().min(self.data.len() - self.pos);
+            dest[..k].copy_from_slice(&self.data[self.pos..self.pos + k]);
+            self.pos += k;
+            Ok(k)
+        }
+    }
+    let r = catch_unwind(AssertUnwindSafe(|| -> Result<(), String> {
+        let mut buf: FixedBuf<16> = FixedBuf::new();
+        buf.write_str("x").unwrap();
+        let mut rd = Flaky { left: REPS, data: b"abc\n", pos: 0 };
+        for call in 0..REPS + 10 {
+            match buf.read_frame(&mut rd, deframe_line) {
+                Ok(Some(f)) => {
+                    return if f == b"xabc" { Ok(()) } else { Err(format!("frame {:?}", f)) };
+                }
+                Ok(None) => return Err(format!("end of stream at call {}", call)),
+                Err(e) if e.kind() == std::io::ErrorKind::Interrupted => {
+                    if buf.readable() != b"x" {
+                        return Err(format!("buffer changed at call {}", call));
+                    }
+                }
+                Err(e) => return Err(format!("call {}: error kind {:?} although the reader only ever said Interrupted", call, e.kind())),
+            }
+        }
+        Err("no frame".into())
+    }))
+    .map_err(|_| ());
+    verdict(w, "C06", REPS, "interrupted_repeated", r);
+    n += 1;
+    // C13 / C08 / C09: REPS writes answered Ok(0), REPS flushes, REPS one-byte reads through each adapter
+    struct Zero {
+        calls: usize,
+        data: Vec<u8>,
+        pos: usize,
+    }
+    impl Read for Zero {
+        fn read(&mut self, dest: &mut [u8]) -> std::io::Result<usize> {
+            let k = dest.len().min(self.data.len() - self.pos);
+            dest[..k].copy_from_slice(&self.data[self.pos..self.pos + k]);
+            self.pos += k;
+            Ok(k)
+        }
+    }
+    impl std::io::Write for Zero {
+        fn write(&mut self, _b: &[u8]) -> std::io::Result<usize> {
+            self.calls += 1;
+            Ok(0)
+        }
+        fn flush(&mut self) -> std::io::Result<()> {
+            self.calls += 1;
+            Ok(())
+        }
+    }
+    for adapter in ["chain", "take"] {
+        let r = catch_unwind(AssertUnwindSafe(|| -> Result<(), String> {
+            let data: Vec<u8> = (0..REPS + 5).map(|i| (i % 251) as u8).collect();
+            let mut inner = Zero { calls: 0, data: data.clone(), pos: 0 };
+            let mut first = Zero { calls: 0, data: vec![], pos: 0 };
+            let mut chain;
+            let mut take;
+            let x: &mut dyn RW = if adapter == "chain" {
+                chain = ReadWriteChain::new(&mut first, &mut inner);
+                &mut chain
+            } else {
+                take = ReadWriteTake::new(&mut inner, (REPS + 3) as u64);
+                &mut take
+            };
+            for i in 0..REPS {
+                match x.write(b"abc") {
+                    Ok(0) => {}
+                    other => return Err(format!("write #{} returned {:?}", i + 1, other.map_err(|e| kind_num(e.kind())))),
+                }
+            }
+            for i in 0..REPS {
+                if let Err(e) = x.flush() {
+                    return Err(format!("flush #{} returned {:?}", i + 1, e.kind()));
+                }
+            }
+            for i in 0..REPS {
+                let mut d = [0u8; 1];
+                match x.read(&mut d) {
+                    Ok(1) if d[0] == data[i] => {}
+                    other => return Err(format!("read #{} returned {:?} / {}", i + 1, other.map_err(|e| kind_num(e.kind())), d[0])),
+                }
+            }
+            Ok(())
+        }))
+        .map_err(|_| ());
+        verdict(w, "C13", REPS, &format!("{}_writes_flushes_reads_repeated", adapter), r);
+        n += 1;
+    }
+    // C01 / C03: REPS write-one / read-one rounds on one FixedBuf, with shift and try_parse in between
+    let r = catch_unwind(AssertUnwindSafe(|| -> Result<(), String> {
+        let mut buf: FixedBuf<8> = FixedBuf::new();
+        buf.write_bytes(b"ab").unwrap();
+        for i in 0..REPS {
+            let b = (i % 200) as u8;
+            buf.write_bytes(&[b]).map_err(|_| format!("write refused in round {}", i))?;
+            let _ = buf.try_parse(|b| { b.read_all(); None::<()> });
+            let got = buf.read_byte();
+            let want = if i == 0 { b'a' } else if i == 1 { b'b' } else { ((i - 2) % 200) as u8 };
+            if got != want || buf.len() != 2 {
+                return Err(format!("round {}: got {} expected {}, len {}", i, got, want, buf.len()));
+            }
+            if i % 3 == 0 {
+                buf.shift();
+            }
+        }
+        Ok(())
+    }))
+    .map_err(|_| ());
+    verdict(w, "C01", REPS, "write_read_rounds_repeated", r);
+    n += 1;
+    n
+}
+
+trait RW: Read + std::io::Write {}
+impl<T: Read + std::io::Write> RW for T {}
+
+/// C12 across calls: a `read_frame` call ends in a reader error / EOF with a partial frame buffered; the frame is then
+/// completed by some OTHER writer of the buffer; the next `read_frame` (same or another deframer) must return it without
+/// touching the reader
+pub fn interleavings(w: &mut impl std::io::Write) -> usize {
+    use std::io::Write as _;
+    let mut n = 0;
+    struct Script {
+        acts: Vec<Option<std::io::ErrorKind>>, // None = EOF
+        calls: usize,
+    }
+    impl Read for Script {
+        fn read(&mut self, _d: &mut [u8]) -> std::io::Result<usize> {
+            self.calls += 1;
+            match if self.acts.is_empty() { None } else { self.acts.remove(0) } {
+                Some(k) => Err(std::io::Error::from(k)),
+                None => Ok(0),
+            }
+        }
+    }
+    use std::io::ErrorKind::*;
+    for first in [Some(WouldBlock), Some(TimedOut), Some(Interrupted), Some(ConnectionReset), Some(Other), None] {
+        for how in 0..6 {
+            for (df1, df2) in [(0usize, 0usize), (1, 0), (0, 1)] {
+                let r = catch_unwind(AssertUnwindSafe(|| -> Result<(), String> {
+                    let dfs: [fn(&[u8]) -> Result<Option<(core::ops::Range<usize>, usize)>, MalformedInputError>; 2] = [deframe_line, deframe_crlf];
+                    let mut buf: FixedBuf<16> = FixedBuf::new();
+                    buf.write_str("ab").unwrap();
+                    let mut rd = Script { acts: vec![first], calls: 0 };
+                    let r1 = buf.read_frame(&mut rd, dfs[df1]).map(|o| o.map(|p| p.to_vec()));
+                    match (&r1, first) {
+                        (Err(e), Some(k)) if e.kind() == k => {}
+                        (Err(e), None) if e.kind() == UnexpectedEof => {}
+                        other => return Err(format!("first call: {:?}", other.0.as_ref().map_err(|e| e.kind()))),
+                    }
+                    let tail: &[u8] = b"\r\n";
+                    match how {
+                        0 => {
+                            buf.write_bytes(tail).map_err(|_| "refused")?;
+                        }
+                        1 => buf.write_str("\r\n").map_err(|_| "refused")?,
+                        2 => {
+                            buf.write(tail).map_err(|_| "refused")?;
+                        }
+                        3 => {
+                            buf.writable()[..2].copy_from_slice(tail);
+                            buf.wrote(2);
+                        }
+                        4 => {
+                            let mut c = std::io::Cursor::new(tail.to_vec());
+                            buf.copy_once_from(&mut c).map_err(|_| "refused")?;
+                        }
+                        _ => {
+                            buf.shift();
+                            buf.write_bytes(tail).map_err(|_| "refused")?;
+                        }
+                    }
+                    let calls_before = rd.calls;
+                    let r2 = buf.read_frame(&mut rd, dfs[df2]).map(|o| o.map(|p| p.to_vec())).map_err(|e| format!("{:?}", e.kind()))?;
+                    if r2 != Some(b"ab".to_vec()) {
+                        return Err(format!("second call returned {:?}", r2));
+                    }
+                    if rd.calls != calls_before {
+                        return Err("the reader was called although a complete frame was buffered".into());
+                    }
+                    Ok(())
+                }))
+                .map_err(|_| ());
+                verdict(w, "C12", 16, &format!("readframe_{:?}_then_writer{}_then_readframe_df{}{}", first, how, df1, df2), r);
+                n += 1;
+            }
+        }
+    }
+    n
+}
+
+/// `read_to_string` on FixedBuf (another provided method): valid UTF-8 with multi-byte characters, and invalid bytes
+pub fn read_to_string_cases(w: &mut impl std::io::Write) -> usize {
+    let mut n = 0;
+    let contents: [&[u8]; 6] = [b"", b"abc", "a\u{e9}\u{20ac}z".as_bytes(), "\u{1F600}".as_bytes(), b"ab\xffcd", b"\xE2\x82"];
+    for (ci, content) in contents.iter().enumerate() {
+        for ri in [0usize, 1] {
+            let r = catch_unwind(AssertUnwindSafe(|| -> Result<(), String> {
+                let mut buf: FixedBuf<16> = FixedBuf::new();
+                buf.write_bytes(b"q").unwrap();
+                buf.write_bytes(content).unwrap();
+                if ri == 1 {
+                    buf.read_bytes(1);
+                }
+                let expected: Vec<u8> = buf.readable().to_vec();
+                let mut st = String::from("<");
+                let r = buf.read_to_string(&mut st);
+                match (std::str::from_utf8(&expected), r) {
+                    (Ok(text), Ok(k)) => {
+                        if k != expected.len() || st != format!("<{}", text) {
+                            return Err(format!("returned {} and {:?} for {} bytes", k, st, expected.len()));
+                        }
+                        if !buf.is_empty() || buf.len() != 0 || buf.writable().len() != 16 {
+                            return Err(format!("after draining: len {} writable {}", buf.len(), buf.writable().len()));
+                        }
+                    }
+                    (Err(_), Err(e)) => {
+                        if e.kind() != std::io::ErrorKind::InvalidData || st != "<" {
+                            return Err(format!("invalid UTF-8: kind {:?}, string {:?}", e.kind(), st));
+                        }
+                    }
+                    (a, b) => return Err(format!("validity {:?} but result {:?}", a.is_ok(), b.map_err(|e| e.kind()))),
+                }
+                Ok(())
+            }))
+            .map_err(|_| ());
+            verdict(w, "C01", 16, &format!("read_to_string_content{}_ri{}", ci, ri), r.clone());
+            verdict(w, "C03", 16, &format!("read_to_string_content{}_ri{}", ci, ri), r);
+            n += 2;
+        }
+    }
+    n
+}
+
 /// `deframe_line` without the quadratic rescans hurting the drip scenario too much: look only at the last byte first
 fn deframe_null_free_line(data: &[u8]) -> Result<Option<(core::ops::Range<usize>, usize)>, MalformedInputError> {
     if data.last() != Some(&b'\n') {
